@@ -88,6 +88,9 @@ pub use self::address::Address;
 pub use self::address::ObjectReference;
 pub use self::opaque_pointer::*;
 
+#[cfg(mmtk_verif)]
+pub mod verif_env;
+
 /// Verification hook: the free-list implementations live in private modules.
 #[cfg(mmtk_verif)]
 pub mod verif_freelist {
